@@ -141,7 +141,13 @@ static bool check_packed(uint64_t k) {
   return ok;
 }
 
+static Case g_cur;  // the case under evaluation, for the sanitizer death hook
+static void death_case(std::string &ctext, std::string &msg) {
+  ctext = g_cur.ser();
+  msg = g_cur.what;
+}
 static bool check_one(const Case &c) {
+  g_cur = c;
   if (c.what == "v32") return check_v32((uint32_t)c.v);
   if (c.what == "v64") return check_v64(c.v);
   if (c.what == "fixed32") return check_fixed32((uint32_t)c.v, c.align);
@@ -181,7 +187,7 @@ static int fail_out(const WorkerOpts &o, const Case &c) {
   fprintf(stderr, "FAIL %s", c.ser().c_str());
   return 1;
 }
-#define CHECK(what_, v_, al_, expr) do { if (!(expr)) { Case c_; c_.what = what_; c_.v = (v_); c_.align = (al_); return fail_out(o, c_); } n_eval++; } while (0)
+#define CHECK(what_, v_, al_, expr) do { g_cur.what = what_; g_cur.v = (v_); g_cur.align = (al_); if (!(expr)) { Case c_; c_.what = what_; c_.v = (v_); c_.align = (al_); return fail_out(o, c_); } n_eval++; } while (0)
 
 static int extra_modes(const WorkerOpts &o, Stats &stats) {
   long long n_eval = 0, n_multi = 0;
@@ -236,7 +242,9 @@ static int extra_modes(const WorkerOpts &o, Stats &stats) {
   } else if (o.mode == "all32") {
     // the whole 32-bit space, split over the workers
     uint64_t lo = (1ull << 32) * (uint64_t)o.worker / (uint64_t)o.nworkers, hi = (1ull << 32) * (uint64_t)(o.worker + 1) / (uint64_t)o.nworkers;
+    g_cur.what = "v32";
     for (uint64_t v = lo; v < hi; v++) {
+      g_cur.v = v;
       if (!check_v32((uint32_t)v)) {
         Case c;
         c.what = "v32";
@@ -260,4 +268,7 @@ static int extra_modes(const WorkerOpts &o, Stats &stats) {
   return 0;
 }
 
-int main(int argc, char **argv) { return vf_main<Case>(argc, argv, "C16", gen_case, run_case, extra_modes); }
+int main(int argc, char **argv) {
+  g_death_cb = death_case;
+  return vf_main<Case>(argc, argv, "C16", gen_case, run_case, extra_modes);
+}
